@@ -203,6 +203,7 @@ class SimFS:
         self.ops: list[tuple] = []  # (index, kind, path, fault_fired)
         self.fired: dict[str, int] = {}
         self.on_op = None  # callback(kind, path, fault, nbytes)
+        self.texts: list[tuple] = []  # (path, text, 'full'|'short') per write that reached the file
 
     def _next(self, kind, path):
         idx = len(self.ops)
@@ -275,10 +276,12 @@ class SimFile:
         if fault == 'short_write':
             n = max(1, len(s) // 2)
             fs.files[self.path] = fs.files.get(self.path, '') + s[:n]
+            fs.texts.append((self.path, s[:n], 'short'))
             if fs.on_op:
                 fs.on_op('write', self.path, fault, n)
             raise OSError(5, 'Input/output error after short write (injected)')
         fs.files[self.path] = fs.files.get(self.path, '') + s
+        fs.texts.append((self.path, s, 'full'))
         if fs.on_op:
             fs.on_op('write', self.path, None, len(s))
         return len(s)
